@@ -72,10 +72,9 @@ class Software:
             oversion, opatch = mx.group(1), mx.group(2).strip()
         else:
             oversion, opatch = other, ''
-        if self.version < oversion:
-            return -1
-        elif self.version > oversion:
-            return 1
+        version_cmp = Software._compare_version_numbers(self.version, oversion)
+        if version_cmp != 0:
+            return version_cmp
         spatch = self.patch or ''
         if self.product == Product.DropbearSSH:
             if not re.match(r'^test\d.*$', opatch):
@@ -96,6 +95,23 @@ class Software:
         if spatch < opatch:
             return -1
         elif spatch > opatch:
+            return 1
+        return 0
+
+    @staticmethod
+    def _compare_version_numbers(a: str, b: str) -> int:
+        '''Compares two dot-separated version numbers component by component, numerically (so that 10.0 is newer than 9.9, and 0.10.6 is newer than 0.7.0).  Falls back to a string comparison if either is not purely numeric.  Returns -1, 0, or 1.'''
+        va: Any = a
+        vb: Any = b
+        try:
+            va = [int(x) for x in a.split('.')]
+            vb = [int(x) for x in b.split('.')]
+        except ValueError:
+            va, vb = a, b
+
+        if va < vb:
+            return -1
+        elif va > vb:
             return 1
         return 0
 
